@@ -321,6 +321,7 @@ func reportViolation(eng core.Engine, o WorkerOpts, run, seed uint64, res core.R
 	// (trace mode: engines that cannot own a nondeterminism source of the code
 	// under test — Go map order inside osm.Check/Filter — repeat such calls
 	// many more times when tracing)
+	os.Stdout.WriteString("K\n")
 	r2, _ := ReplayVals(eng, tp.Vals, true)
 	if r2.Viol == nil || r2.Viol.Fingerprint() != want {
 		got := "no violation"
@@ -333,6 +334,9 @@ func reportViolation(eng core.Engine, o WorkerOpts, run, seed uint64, res core.R
 	shrink.Labels = func() []string { return lastLabels }
 	defer func() { shrink.Labels = nil }()
 	test := func(vals []uint64) (bool, int) {
+		// keep-alive for the supervisor's watchdog: minimising a long run can
+		// take longer than its no-progress limit
+		os.Stdout.WriteString("K\n")
 		r, t := ReplayVals(eng, vals, true)
 		lastLabels = lastLabels[:0]
 		for _, e := range t.Rec {
